@@ -33,6 +33,7 @@ func rulesC17(c *Ctx) {
 	ruleStatusCompare(c)
 	ruleStatusOptions(c)
 	ruleOptionProbes(c, "chk", 2)
+	ruleCompareStructural(c)
 }
 
 // detailKeyFields: the key fields of client.OpDetailsResults (everything except Type).
@@ -1469,4 +1470,61 @@ func classifyAlternative(info *types.Info, fd *ast.FuncDecl, e ast.Expr, want ty
 		}
 	}
 	return "?"
+}
+
+// COMPARE-STRUCTURAL — HasResult decides presence with cmp.Equal over client.OpResult values, field by
+// field under the documented ignore list. go-cmp hands the comparison over to a type's own Equal method
+// when it has one, so an Equal method on OpResult or on any repository type reachable from it (its
+// Details, say) silently replaces the field-by-field comparison with whatever that method compares — a
+// method that leaves a key field out makes results for different keys "equal" and an absent want pass.
+func ruleCompareStructural(c *Ctx) {
+	const rule = "COMPARE-STRUCTURAL"
+	pk := c.P.pkg("client")
+	if pk == nil {
+		c.vanished(rule, "client", "package", "package client not loaded")
+		return
+	}
+	tn, _ := pk.Types.Scope().Lookup("OpResult").(*types.TypeName)
+	if tn == nil {
+		c.vanished(rule, "client.OpResult", "type", "type not found")
+		return
+	}
+	seen := map[*types.Named]bool{}
+	var bad []string
+	n := 0
+	var walk func(t types.Type)
+	walk = func(t types.Type) {
+		switch x := t.(type) {
+		case *types.Pointer:
+			walk(x.Elem())
+		case *types.Slice:
+			walk(x.Elem())
+		case *types.Map:
+			walk(x.Elem())
+		case *types.Named:
+			if seen[x] || x.Obj().Pkg() == nil || !strings.HasPrefix(x.Obj().Pkg().Path(), modPath) {
+				return
+			}
+			seen[x] = true
+			n++
+			for _, recv := range []types.Type{x, types.NewPointer(x)} {
+				ms := types.NewMethodSet(recv)
+				for i := 0; i < ms.Len(); i++ {
+					if ms.At(i).Obj().Name() == "Equal" {
+						bad = append(bad, x.Obj().Pkg().Name()+"."+x.Obj().Name()+".Equal")
+					}
+				}
+			}
+			if st, ok := x.Underlying().(*types.Struct); ok {
+				for i := 0; i < st.NumFields(); i++ {
+					walk(st.Field(i).Type())
+				}
+			}
+		}
+	}
+	walk(tn.Type())
+	c.Sites += n
+	sort.Strings(bad)
+	c.check(len(bad) == 0 && n >= 2, rule, "client.OpResult", "compared field by field", "-", fmt.Sprintf("%d repository types reachable from OpResult, none defines Equal", n),
+		"cmp.Equal uses "+strings.Join(bad, ", ")+" instead of comparing the fields: whatever that method leaves out no longer distinguishes a wanted result from the ones present")
 }
